@@ -116,7 +116,7 @@ def run_tlc(module, cfg, wd, env=None, workers=8, timeout=1200, heap="6g", const
     if expect_violation:
         # a configuration that describes a known-wrong mechanism: TLC must refute it
         shutil.rmtree(os.path.join(wd, "states-" + module), ignore_errors=True)
-        res["refuted"] = ("Invariant %s is violated" % expect_violation) in text or ("property %s was violated" % expect_violation) in text
+        res["refuted"] = any((pat % expect_violation) in text for pat in ("Invariant %s is violated", "property %s is violated", "property %s was violated"))
         return res
     if simulate:
         if p.returncode != 0 or "Error:" in text:
